@@ -4,6 +4,7 @@ import ChythonModel.Proofs.C03Reject
 import ChythonModel.Proofs.C03TokParen
 import ChythonModel.Proofs.C03SpecRing
 import ChythonModel.Proofs.C03Mapping
+import ChythonModel.Proofs.C03Lexer
 /-!
 # C03 — SMILES reader builds exactly the molecule the text denotes, rejects the rest
 
@@ -60,6 +61,19 @@ theorem smiles_tokenize_total (s : Str) (hs : s ≠ []) :
 
 /-- the bracket-atom parser can only fail with IncorrectSmiles -/
 theorem atom_parse_total (s : Str) (k : String) : atomParse s ≠ .error (.crash k) := atomParse_nocrash s k
+
+/-- The tokenizer inverts rendering on the organic-subset token language: for every list of tokens — organic /
+    aromatic one-letter atoms, `C`, `B`, `Cl`, `Br`, bond symbols, direction marks, dots, parentheses, one-digit and
+    `%nn` ring numbers — in which no `(` is directly followed by `(`, `)` or a ring number, `smiles_tokenize` of the
+    concatenated spelling returns exactly that token list (so `Cl` is never read as `C` + `l`, a pending `C`/`B` is
+    flushed before whatever follows, `%12` is ring 12 and `12` is rings 1 and 2). Together with `accept_sound_rings`
+    this carries the parser theorems to the level of strings for the organic subset. -/
+theorem lexer_roundtrip (ts : List LTok) (h : LexOK false ts) :
+    smilesTokenize (ts.flatMap LTok.render) = .ok (ts.map LTok.tok) := smilesTokenize_render ts h
+
+/-- non-trivial instance: `ClC(=O)c1ccccc%12.BrB` -/
+example : LexOK false [.cCl, .cC, .lpar, .bond 61, .org 79, .rpar, .aro 99, .ring1 49, .aro 99, .ring2 49 50, .dot, .cBr, .cB] := by
+  simp [LexOK, LTok.wf, LTok.afterOpenOK, bondChars, organicChars, aromaticChars, digitChars]
 
 /-! ## `parser`: well-formedness of what it returns -/
 
